@@ -21,7 +21,24 @@ def ecp_canon(el):
                                                tuple(tuple(frac_d(x) for x in c) for c in p['coefficients'])) for p in el['ecp_potentials'])))
 
 
-def compare(b, r):
+def documented_ul(el, fmt):
+    """what the documented limitation of the nwchem / demon2k readers (known findings F14) makes of an element: the text does not carry the momentum of
+    the local potential ('ul' = the one of highest momentum); nwchem sets it to (highest other momentum) + 1 and keeps the others, demon2k numbers the
+    blocks by position.  None when the format has no such limitation or the reader raises instead (no other potential)."""
+    pots = sorted(el['ecp_potentials'], key=lambda p: p['angular_momentum'][0])
+    if fmt == 'nwchem':
+        if len(pots) < 2:
+            return None
+        new = [dict(p) for p in pots]
+        new[-1]['angular_momentum'] = [pots[-2]['angular_momentum'][0] + 1]
+    elif fmt == 'demon2k':
+        new = [dict(p, angular_momentum=[i]) for i, p in enumerate(pots)]
+    else:
+        return None
+    return dict(el, ecp_potentials=new)
+
+
+def compare(b, r, fmt=None):
     """returns list of (rule, what, z)"""
     bad = []
     if set(r['elements']) != set(b['elements']):
@@ -38,7 +55,10 @@ def compare(b, r):
             ls = sorted(set(l for l, _ in f0 ^ f1))
             bad.append(('functions_changed', 'Z=%s: contracted functions differ (momenta %s; %d lost, %d new)' % (z, ls, len(f0 - f1), len(f1 - f0)), z))
         if ecp_canon(e0) != ecp_canon(e1):
-            bad.append(('ecp_changed', 'Z=%s: ECP potentials / electron count differ' % z, z))
+            # `ecp_changed` = altered exactly as the known findings F14 describe; anything else is another alteration
+            doc = documented_ul(e0, fmt) if 'ecp_potentials' in e0 else None
+            rule = 'ecp_changed_otherwise' if fmt in ('nwchem', 'demon2k') and not (doc is not None and ecp_canon(doc) == ecp_canon(e1)) else 'ecp_changed'
+            bad.append((rule, 'Z=%s: ECP potentials / electron count differ' % z, z))
     return bad
 
 
@@ -105,7 +125,7 @@ def work(item):
                     out['cases'].append(rec)
                     continue
                 try:
-                    rec['bad'] = compare(bb, r)
+                    rec['bad'] = compare(bb, r, fmt)
                 except Exception as e:
                     rec['bad'] = [('compare_crashed', '%s: %s' % (type(e).__name__, str(e)[:80]), None)]
                 # verified checker on one element
@@ -892,6 +912,6 @@ def replay(ctx, payload):
     except Exception as e:
         print('raises', e)
         return True
-    bad = compare(b, r)
+    bad = compare(b, r, w['fmt'])
     print(bad[:3])
     return not bad
